@@ -3,6 +3,7 @@ package props
 import (
 	"fmt"
 	"go/token"
+	"sort"
 	"strings"
 
 	"gcv/internal/an"
@@ -347,6 +348,41 @@ func checkC19(r *core.Run) {
 			why = "a new session does not start at MaxDatfileSequence+1"
 		}
 		r.Check(okSeq && okNew, "R-C19-load", "data-sequence", p.Pos(mp.Pos()), "every indexed record raises the highest data-file sequence; a session writes to the next one", why)
+	}
+	// the log files are (re)created on demand by testing the handle field for nil: a handle that is closed must
+	// be cleared in the same step, otherwise later records are written to the closed file and silently lost
+	{
+		n := 0
+		var bad []string
+		for _, f := range p.ModuleFuncs() {
+			if pk := core.FuncPkg(f); pk == nil || !strings.HasSuffix(pk.Path(), "lib/others/qdb") {
+				continue
+			}
+			for _, b := range f.Blocks {
+				for k, ins := range b.Instrs {
+					c, ok := ins.(*ssa.Call)
+					if !ok || an.CallName(c) != "(*os.File).Close" {
+						continue
+					}
+					recv := an.Expr(c.Call.Args[0])
+					if !(strings.HasSuffix(recv, ".file") || strings.HasSuffix(recv, ".LogFile")) {
+						continue
+					}
+					n++
+					cleared := false
+					for _, later := range b.Instrs[k+1:] {
+						if st, ok := later.(*ssa.Store); ok && an.Expr(st.Addr) == "&"+recv && an.Expr(st.Val) == "nil" {
+							cleared = true
+						}
+					}
+					if !cleared {
+						bad = append(bad, fmt.Sprintf("%s closes %s at %s and keeps the closed handle", core.FuncName(f), recv, p.Pos(c.Pos())))
+					}
+				}
+			}
+		}
+		sort.Strings(bad)
+		r.Check(len(bad) == 0 && n >= 3, "R-C19-load", "closed-handle-cleared", "-", fmt.Sprintf("%d closes of a log handle held in a field, each followed by clearing the field", n), strings.Join(bad, "; "))
 	}
 	// codec
 	c19Codec(r, p)
